@@ -1,6 +1,6 @@
 #!/usr/bin/env python3
 # Authoring aid (never run by a registered command): writes known_findings.json from the tables below.
-import json
+import json, os
 K = []
 def kf(prop, id, what, keys, status="open"):
     K.append({"property": prop, "id": id, "status": status, "what": what, "keys": keys})
@@ -286,6 +286,17 @@ kf("C13", "C13-dce-after-inline", "dce applied to an inlined module removes or r
    ["C13|not-idempotent|dce|*", "C13|behaviour|dce|different-result|F2/callee/*", "C13|behaviour|dce|different-result|F2L/*/H*"])
 kf("C13", "C13-mem2reg-store-before-loop", "mem2reg loses the value a local holds when a loop is entered if the loop's continuing block also stores to that local: `a = a * 31u + 1u; loop { ...; break; continuing { a = a * 31u + 3u; break if c; } } use(a)` reads a wrong value after the loop even when the continuing block never runs; reached also through the DXIL pipeline",
    ["C13|behaviour|mem2reg|different-result|F2L/*/l", "C13|behaviour|dxil-pipeline|different-result|F2L/*/l", "C13|behaviour|mem2reg|different-result|F2L/*/el", "C13|behaviour|dxil-pipeline|different-result|F2L/*/el"])
+
+
+# C13 x F13s (operation sequences on a function-local struct): failure classes of the unchanged tree, recorded
+# mechanically per (pass, failure class, wrapping, set of operations) in kf_c13_f13s_keys.json
+_f13 = json.load(open(os.path.join(os.path.dirname(os.path.abspath(__file__)), "kf_c13_f13s_keys.json")))
+kf("C13", "C13-sroa-struct-local", "sroa on a function-local struct that is read or written as a whole (`let t = s;`, `s = S(...)`, `s = s2;`, `bump(&s, k)`) next to field stores leaves LocalVariable expressions of the removed struct type and Compose expressions of a scalar type behind (ill-formed module that no longer executes); e.g. `var s: S; s.a = 1u; let t = s;`",
+   _f13["sroa"])
+kf("C13", "C13-dce-struct-local", "dce on functions with a struct local drops Emit coverage of AccessIndex expressions that are still used (ill-formed module) and, for some sequences, removes stores that a later whole-value read observes (different result)",
+   _f13["dce"] + _f13["other"])
+kf("C13", "C13-dxil-pipeline-struct-local", "the DXIL pipeline (prepareModule + runOptPasses) inherits the sroa/dce defects on struct locals: ill-formed modules, different results, and a second run changes the module again",
+   _f13["dxil-pipeline"] + _f13["mem2reg"])
 
 # ---------------------------------------------------------------- C18 (DXIL container / bitcode)
 kf("C18", "C18-atomic-ordering-code", "atomicrmw/cmpxchg records carry ordering code 7 (the in-memory enum value) instead of the bitcode AtomicOrderingCodes value 6 for seq_cst",
